@@ -187,8 +187,14 @@ func main() {
 	seed := flag.Int64("seed", 1, "")
 	maxd := flag.Duration("max", 5*time.Minute, "")
 	workClocks := flag.Int("work", 6, "work-mode clocks examined per point (33..)")
+	ks := flag.Bool("ks", false, "search keystream corner points (SNOW 3G / ZUC output words) instead of LFSR corners")
+	words := flag.Int("words", 96, "-ks: keystream words examined per point")
 	flag.Parse()
 	loadTables(*spec)
+	if *ks {
+		ksMain(*spec, *out, *per, *seed, *maxd, *words)
+		return
+	}
 	// self-test of the transcription: ZUC spec v1.6 test vector 1 (all-zero key and iv): z1 = 27bede74, z2 = 018082da
 	{
 		var k, iv [16]byte
